@@ -44,6 +44,13 @@ pub(crate) mod verif_refmgr {
     pub const FIRST_INNER: u32 = 2;
     pub const NIL: u32 = u32::MAX;
 
+    /// Component-wise key comparison (`[u32; 2] == [u32; 2]` compiles to a
+    /// byte-wise `memcmp`, which is needlessly expensive for CBMC)
+    #[inline]
+    pub fn keq(a: [u32; 2], b: [u32; 2]) -> bool {
+        a[0] == b[0] && a[1] == b[1]
+    }
+
     // ------------------------------------------------------------------------
     // Diagram kind: tag type, terminal type, the REAL rules type
     // ------------------------------------------------------------------------
@@ -201,7 +208,7 @@ pub(crate) mod verif_refmgr {
     // `Eq`/`Hash` consider the children only (oxidd_core::InnerNode doc)
     impl<K: RefKind> PartialEq for RNode<K> {
         fn eq(&self, other: &Self) -> bool {
-            self.key() == other.key()
+            keq(self.key(), other.key())
         }
     }
     impl<K: RefKind> Eq for RNode<K> {}
@@ -346,14 +353,14 @@ pub(crate) mod verif_refmgr {
                     // they were inserted with and compares the current
                     // children; both must agree.
                     assert!(
-                        cur == self.keys[i],
+                        keq(cur, self.keys[i]),
                         "PROTOCOL: lookup in a level view that contains a node whose children changed after insertion"
                     );
                 }
                 // In a taken view stale entries are legitimate (level_swap
                 // rewrites nodes of the taken old upper level); the real
                 // table's equality function sees the current children.
-                if cur == key {
+                if keq(cur, key) {
                     return Some(i);
                 }
                 i += 1;
@@ -367,12 +374,44 @@ pub(crate) mod verif_refmgr {
             self.len += 1;
         }
         fn swap_remove(&mut self, i: usize) -> REdge<K> {
+            // (field-wise on purpose: slice::swap / mem::swap / mem::replace go
+            // through untyped byte copies, which CBMC cannot constant-fold)
             let last = self.len - 1;
-            self.edges.swap(i, last);
-            self.keys.swap(i, last);
+            let removed = self.edges[i].raw;
+            self.edges[i].raw = self.edges[last].raw;
+            self.keys[i][0] = self.keys[last][0];
+            self.keys[i][1] = self.keys[last][1];
+            self.edges[last].raw = NIL;
+            self.keys[last][0] = NIL;
+            self.keys[last][1] = NIL;
             self.len = last;
-            self.keys[last] = [NIL; 2];
-            std::mem::replace(&mut self.edges[last], Self::NILEDGE)
+            REdge::from_raw(removed)
+        }
+
+        /// Exchange the contents of two tables (field-wise, see `swap_remove`)
+        fn swap_with(&mut self, other: &mut Self) {
+            let l = self.len;
+            self.len = other.len;
+            other.len = l;
+            let mut i = 0;
+            while i < TCAP {
+                let r = self.edges[i].raw;
+                self.edges[i].raw = other.edges[i].raw;
+                other.edges[i].raw = r;
+                let k0 = self.keys[i][0];
+                self.keys[i][0] = other.keys[i][0];
+                other.keys[i][0] = k0;
+                let k1 = self.keys[i][1];
+                self.keys[i][1] = other.keys[i][1];
+                other.keys[i][1] = k1;
+                i += 1;
+            }
+        }
+        /// Move the contents out, leaving an empty table (field-wise)
+        fn take_all(&mut self) -> Self {
+            let mut t = Self::new();
+            t.swap_with(self);
+            t
         }
 
         fn insert(&mut self, mgr: &RefManager<K>, edge: REdge<K>, live: bool) -> bool {
@@ -569,7 +608,7 @@ pub(crate) mod verif_refmgr {
         }
         unsafe fn swap(&mut self, other: &mut Self) {
             self.mgr.swap_levels(self.level, other.level);
-            std::mem::swap(&mut *self.set, &mut *other.set);
+            self.set.swap_with(&mut *other.set);
         }
         #[inline]
         fn iter(&self) -> Self::Iterator<'_> {
@@ -579,7 +618,7 @@ pub(crate) mod verif_refmgr {
             if !self.allow_node_removal {
                 return None;
             }
-            let set = std::mem::replace(&mut *self.set, Table::new());
+            let set = self.set.take_all();
             let mut i = 0;
             while i < set.len {
                 let n = &self.mgr.nodes[set.edges[i].slot()];
@@ -645,7 +684,7 @@ pub(crate) mod verif_refmgr {
         }
         unsafe fn swap(&mut self, other: &mut Self) {
             self.mgr.swap_levels(self.level, other.level);
-            std::mem::swap(&mut self.set, &mut other.set);
+            self.set.swap_with(&mut other.set);
         }
         #[inline]
         fn iter(&self) -> Self::Iterator<'_> {
@@ -655,7 +694,7 @@ pub(crate) mod verif_refmgr {
             Some(RefTakenView {
                 mgr: self.mgr,
                 level: self.level,
-                set: std::mem::replace(&mut self.set, Table::new()),
+                set: self.set.take_all(),
             })
         }
     }
@@ -664,7 +703,8 @@ pub(crate) mod verif_refmgr {
             // mirror of TakenLevelView::drop: release the table's references
             let mut i = 0;
             while i < self.set.len {
-                let edge = std::mem::replace(&mut self.set.edges[i], Table::<K>::NILEDGE);
+                let edge = REdge::<K>::from_raw(self.set.edges[i].raw);
+                self.set.edges[i].raw = NIL;
                 let n = &self.mgr.nodes[edge.slot()];
                 n.taken_refs.set(n.taken_refs.get() - 1);
                 self.mgr.drop_unique_table_edge(edge);
